@@ -74,14 +74,14 @@ _CQ = ['q:antimask', 'q:corners', 'q:slicer', 'q:wod']
 COMPACT = {
     'S3m': _CQ + ['iadd:num', 'imul:objm', 'set:0:masked', 'set:sl:obj', 'insd:t', 'units:km', 'ro', 'shun:arr', 'q:times2'],
     'S3': _CQ + ['isub:arr', 'itruediv:zero', 'imod:objm', 'set:bm:num', 'set:mi:num', 'insd:t', 'deld:t', 'hold:arr', 'unheld'],
-    'S0': _CQ + ['iadd:num', 'imul:num', 'iadd:objm', 'set:all:num', 'insd:t', 'shun:arr', 'ro'],
+    'S0': _CQ + ['iadd:num', 'imul:num', 'iadd:objm', 'set:all:num', 'set:sl:objm', 'insd:t', 'shun:arr', 'ro'],
     'S0d': _CQ + ['iadd:num', 'isub:arr', 'imul:num', 'itruediv:num', 'imod:num', 'ifloordiv:num', 'deld:t', 'units:km', 'ro', 'q:plus1'],
-    'S3d': _CQ + ['iadd:num', 'imul:num', 'iadd:objd', 'imul:objm', 'set:0:masked', 'delds', 'ro', 'ro:nr', 'shun:arr', 'q:div2'],
+    'S3d': _CQ + ['iadd:num', 'imul:num', 'iadd:objd', 'imul:objm', 'set:0:masked', 'delds', 'ro', 'ro:nr', 'shun:arr', 'q:div2', 'holdw', 'q:heldw'],
     'S23m': _CQ + ['set:0:num', 'set:sl:objm', 'iadd:objm', 'imul:objT', 'shun:arr', 'hold:arr', 'unheld', 'q:mod2', 'q:minus1'],
     'I3': _CQ + ['iand:objm', 'ior:arr', 'ixor:obj', 'iadd:num', 'ifloordiv:obj', 'imod:objm', 'insd:t'],
     'I0d': _CQ + ['iand:bool', 'ior:objm', 'iadd:num', 'imul:num', 'deld:t', 'ro'],
     'B3': _CQ + ['iand:objm', 'ior:objm', 'ixor:objm', 'iand:bool', 'ior:arr', 'set:0:masked', 'shun:arr'],
-    'B0': _CQ + ['iand:objm', 'ior:bool', 'ixor:objT', 'set:all:num', 'ro'],
+    'B0': _CQ + ['iand:objm', 'ior:bool', 'ixor:objT', 'set:all:num', 'set:sl:objm', 'ro'],
     'V2d': _CQ + ['iadd:objm', 'imul:num', 'imul:objm', 'itruediv:num', 'set:0:masked', 'deld:t', 'units:km'],
     'V0': _CQ + ['iadd:obj', 'imul:num', 'imul:objT', 'set:all:num', 'insd:t'],
     'M2': _CQ + ['imul:num', 'imul:obj', 'iadd:objm', 'set:0:masked', 'ro'],
